@@ -208,11 +208,10 @@ Definition lst_calls (locals : list text) : list wcall :=
 
 (* ---- value framing -------------------------------------------------------------------- *)
 Definition id_of_tok_field (w : wstate) (t : tok) : option (wstate * N) :=
-  if negb (tk_sid t =? -1)%Z then Some (w, of_i64 (tk_sid t))
-  else match tk_text t with
-       | Some x => let '(w', id, ok) := resolve_from_table w x in if ok then Some (w', id) else None
-       | None => None
-       end.
+  match tk_text t with
+  | Some x => let '(w', id, ok) := resolve_from_table w x in if ok then Some (w', id) else None
+  | None => if negb (tk_sid t =? -1)%Z then Some (w, of_i64 (tk_sid t)) else None
+  end.
 Definition id_of_tok_annot (w : wstate) (t : tok) : option (wstate * N) :=
   match tk_text t with
   | Some x => let '(w', id, ok) := resolve_from_table w x in if ok then Some (w', id) else None
@@ -279,8 +278,8 @@ Definition end_value (w : wstate) : ret :=
   match w_bufs w with
   | q :: rest =>
     match bs_code q with
-    | Some 224 => emit (set_bufs w rest) (node_of_seq q)
-    | _ => (w, true)
+    | Some c => if c =? 224 then emit (set_bufs w rest) (node_of_seq q) else (w, true)
+    | None => (w, true)
     end
   | [] => (w, true)
   end.
@@ -399,14 +398,15 @@ Definition step (w : wstate) (c : wcall) : res ret :=
   | CTimestamp len body => write_value w (append_tag [] 96 len ++ body)
   | CSymbol t =>
     if w_err w then Ok (w, false) else
-    if negb (tk_sid t =? -1)%Z then write_symbol_id w (of_i64 (tk_sid t))
-    else match tk_text t with
-         | Some x =>
-           let '(w', id, ok) := resolve_from_table w x in
-           let w' := set_err w' (negb ok) in
-           if negb ok then Ok (w', false) else write_symbol_id w' id
-         | None => Ok (set_err w true, false)
-         end
+    match tk_text t with
+    | Some x =>
+      let '(w', id, ok) := resolve_from_table w x in
+      let w' := set_err w' (negb ok) in
+      if negb ok then Ok (w', false) else write_symbol_id w' id
+    | None =>
+      if negb (tk_sid t =? -1)%Z then write_symbol_id w (of_i64 (tk_sid t))
+      else Ok (set_err w true, false)
+    end
   | CSymbolFromString x =>
     if w_err w then Ok (w, false) else
     let '(w', id, ok) := resolve w x in
